@@ -8,7 +8,8 @@ BUILT = {
         cat="model_checking", design="DESIGN.md §4 C06",
         text="TLC exhaustively explores the integer representation machine (machine word / big integer; checked "
              "fast path with fallback, always-big, normalising and representation-blind operators) over the "
-             "word-boundary operand pool with RepIndependent and RepSound as invariants; every transition is "
+             "word-boundary operand pool with RepIndependent and RepSound as invariants (thorough: un-normalised "
+             "results feed a second operation); every transition is "
              "replayed in the real interpreter with operands forced into the chosen representation. A seeded "
              "driver then evaluates every integer operator on boundary and random operands up to thousands of "
              "bits produced in seven different ways and Trace_Num.tla re-computes each result exactly "
@@ -41,7 +42,7 @@ BUILT = {
              "cross-multiplication in BigNum; trichotomy, == an equivalence, < transitive and compatible with ==, "
              "<=> antisymmetric and NaN-comparisons-are-errors are invariants; each case is replayed in the "
              "interpreter. Trace validation covers all pairs of a larger random pool (floats together with their "
-             "exact rational value +- 1e-40), lexicographic list/vector comparison, sort (the permutation produced "
+             "exact rational value +- 1e-40), lexicographic list/vector comparison (also of one sequence object with itself or its alias), sort (the permutation produced "
              "must be the stable sorting permutation) and min/max of lists (first extremal element).",
         note="Strings/bytes ordering is covered only through C13's sort cases. Trusted: TLC, lib/BigNum, f64::to_bits, "
              "harness projection.",
@@ -123,7 +124,7 @@ BUILT = {
         text="A TLA+ model of call dispatch (primitives with their three one-argument behaviours, PA1/PA2/PALast/Flip "
              "wrappers, call and chain sections, the call-or-partially-apply rule) on which TLC checks that every "
              "application form named by the property denotes the same primitive call (FormsAgree: 26 function values "
-             "x arity 1-3 x data/function first argument x all forms); all 1,404 cases are executed in the "
+             "x arity 1-3 x data/function first argument x all forms incl. sections with splatted arguments); all cases are executed in the "
              "interpreter. The per-builtin obligation (vector, one-argument and two-argument entry points and "
              "partial-application shortcuts agree) is established by trace validation: every global name bound to a "
              "function (about 284 builtins and types after excluding I/O, clock, random, eval and reflection names, "
@@ -168,7 +169,7 @@ BUILT = {
                   "of recorded histories"),
     "C13": dict(
         cat="model_checking", design="DESIGN.md §4 C13",
-        text="SeqLib.tla transcribes the one-line definitions of about 60 sequence functions with a kind-preservation "
+        text="SeqLib.tla transcribes the one-line definitions of about 60 sequence functions (both forms of **: product and repetition) with a kind-preservation "
              "table. TLC checks the spec's own laws (sort ordered, permutation and stable; unique idempotent; "
              "flatten o group = id; window, prefix and suffix counts; combinatorial counts) and enumerates every input "
              "of length 0..3/4 over a small alphabet x 7 input kinds x every function x numeric parameters "
@@ -190,11 +191,16 @@ BUILT = {
              "violates them - kept as negative control); every mutation transition is replayed at N = 4000 and the "
              "bytes the interpreter requests from the allocator while the statement runs must stay below "
              "4 * element_bytes * copied + slack (growing statements are repeated 50 times and judged on the total). "
+             "Each protocol step is rendered in every surface form the property names (x[i] = v, x[i] op= v, every "
+             "x[a:b] = v, swap, consume, append= / ++= / +.= / |.= / ||= / -.=, pop, remove x[-1], m[i] op= v ...). "
              "Trace validation: random workloads of 40-200 statements at sizes 2000..80000 over lists, dicts, "
-             "vectors, bytes and nested rows are checked per statement and against a per-workload amortised budget.",
+             "vectors, bytes, nested rows, dict-held rows and struct fields, and stack workloads (bulk append, bulk "
+             "pop down to a length next to a power of two, single appends / pops around it) are checked per statement "
+             "and against a per-workload amortised budget.",
         note="Allocation in bytes requested, never time; one-sided. Element sizes per kind (list 48, dict 128, vector "
-             "32, bytes 1) are constants of the build's data layout logged with each event. Struct fields and `remove` "
-             "at the end are not in the vocabulary. Trusted: TLC, the counting allocator of the harness.",
+             "32, bytes 1) are constants of the build's data layout logged with each event. A bulk statement (a loop around "
+             "one step) is judged on its own with 1.5 kB of interpreter overhead allowed per iteration. Trusted: TLC, "
+             "the counting allocator of the harness.",
         technique="TLA+ refcount/COW protocol model (Cow) + TLC bounded model checking with replay under a counting "
                   "allocator + TLC trace validation of random workloads"),
     "C17": dict(
